@@ -20,20 +20,36 @@ def gen_texts(jlmon, pid, seed, count):
 
 
 def libcall(jlmon, pairs):
-    """Oracle: [(rule_text, data_text)] -> [{"logs": [...], "ret": {...}}] via one jlmon process."""
-    if not pairs:
-        return []
-    inp = "\n".join(json.dumps({"rule": r, "data": d}) for r, d in pairs) + "\n"
-    rc, out, err, dt = O.run_cmd([jlmon, "libcall"], stdin=inp.encode("utf8"), timeout=1800)
-    if rc != 0:
-        raise O.Inconclusive("jlmon libcall failed rc=%s: %s" % (rc, err.decode("utf8", "replace")[-500:]))
-    res, logs = [], []
-    for line in out.decode("utf8", "replace").split("\n"):
-        if line.startswith("@@RET "):
-            res.append({"logs": logs, "ret": json.loads(line[6:])})
-            logs = []
-        elif line != "" or logs:
-            logs.append(line)
+    """Oracle: [(rule_text, data_text)] -> [{"logs": [...], "ret": {...}}].
+    One jlmon process answers all requests; its CPU-time watchdog answers `{"hang": true}` for a
+    call that exceeds the budget and exits, in which case a new process continues with the rest."""
+    res = []
+    todo = list(pairs)
+    restarts = 0
+    while todo:
+        inp = "\n".join(json.dumps({"rule": r, "data": d}) for r, d in todo) + "\n"
+        rc, out, err, dt = O.run_cmd([jlmon, "libcall"], stdin=inp.encode("utf8"), timeout=3600)
+        got, logs = [], []
+        for line in out.decode("utf8", "replace").split("\n"):
+            if line.startswith("@@RET "):
+                got.append({"logs": logs, "ret": json.loads(line[6:])})
+                logs = []
+            elif line != "" or logs:
+                logs.append(line)
+        res.extend(got)
+        if rc == 0 and len(got) == len(todo):
+            break
+        if got and "hang" in got[-1]["ret"] and restarts < 50:
+            restarts += 1
+            todo = todo[len(got):]
+            continue
+        if rc not in (0, 3) and got is not None and restarts < 50 and len(got) < len(todo):
+            # the library process died (abort / stack overflow) inside request number len(got)
+            res.append({"logs": logs, "ret": {"died": rc, "stderr": err.decode("utf8", "replace")[-300:]}})
+            restarts += 1
+            todo = todo[len(got) + 1:]
+            continue
+        raise O.Inconclusive("jlmon libcall failed rc=%s after %d answers: %s" % (rc, len(res), err.decode("utf8", "replace")[-500:]))
     if len(res) != len(pairs):
         raise O.Inconclusive("libcall answered %d of %d requests" % (len(res), len(pairs)))
     return res
@@ -51,7 +67,7 @@ def deep(n, open_="[", close="]", leaf="1"):
 # ----------------------------------------------------------------------------------------
 # CLI
 
-def run_cli(binary, rule, data, form, timeout=60):
+def run_cli(binary, rule, data, form, timeout=40):
     """form: 'arg' (data as 2nd argument), 'stdin' (no 2nd argument), 'dash' (2nd argument '-')."""
     argv = [binary]
     stdin = None
@@ -111,8 +127,8 @@ def judge_cli(pid, rule, data, form, profile, oracle, rc, out, err):
                 json.loads(lines[-1])
             except Exception:
                 V(FM, "result-not-json:%s" % form, "valid JSON on the last line", got, "the printed result is not valid JSON")
-    elif "panic" in ret:
-        cells.append("cli:%s:library-panic" % form)
+    elif "panic" in ret or "hang" in ret or "died" in ret:
+        cells.append("cli:%s:library-%s" % (form, "panic" if "panic" in ret else "hang" if "hang" in ret else "died"))
     else:
         cells.append("cli:%s:%s" % (form, "parse-error" if "parse_error" in ret else "eval-error"))
         want = oracle["logs"] if "err" in ret else []
@@ -358,37 +374,52 @@ def py_lane(pid, tier, seed, agg, meta, profiles=("debug", "release")):
         t0 = time.time()
         pkg_root = O.build_py(profile)
         nproc = min(8, O.NCPU)
-        procs = []
-        for k in range(nproc):
+        reports, failures = [], []
+
+        def run_child(k, skip_until=-1, attempt=0):
             cfile = os.path.join(d, "cases-%s-%d.json" % (profile, k))
-            ofile = os.path.join(d, "out-%s-%d.json" % (profile, k))
-            mine = [{"i": i, "rule": pairs[i][0], "data": pairs[i][1], "oracle": oracle[i]} for i in range(len(pairs)) if i % nproc == k]
-            json.dump({"property": pid, "seed": seed, "tier": tier, "cases": mine}, open(cfile, "w"))
+            ofile = os.path.join(d, "out-%s-%d-%d.json" % (profile, k, attempt))
+            if attempt == 0:
+                mine = [{"i": i, "rule": pairs[i][0], "data": pairs[i][1], "oracle": oracle[i]} for i in range(len(pairs)) if i % nproc == k]
+                json.dump({"property": pid, "seed": seed, "tier": tier, "cases": mine}, open(cfile, "w"))
             env = dict(O.BASE_ENV)
             env["PYTHONPATH"] = pkg_root
             env["JL_LIBCALL"] = jlmon
-            p = subprocess.Popen([sys.executable, child, cfile, ofile], env=env, stdout=subprocess.PIPE, stderr=subprocess.PIPE)
-            procs.append((k, p, cfile, ofile))
-        reports, failures = [], []
-        for k, p, cfile, ofile in procs:
+            p = subprocess.Popen([sys.executable, child, cfile, ofile, str(skip_until)], env=env, stdout=subprocess.PIPE, stderr=subprocess.PIPE)
             try:
                 out, err = p.communicate(timeout=900 if tier == "quick" else 7200)
             except subprocess.TimeoutExpired:
                 p.kill()
                 raise O.Inconclusive("python lane watchdog fired (not a verdict)")
             if p.returncode == 0 and os.path.exists(ofile):
-                reports.append(json.load(open(ofile)))
-            else:
-                # the interpreter died: the progress record names the in-flight call
-                prog = ofile + ".progress"
-                last = open(prog).read() if os.path.exists(prog) else ""
-                if p.returncode is not None and p.returncode < 0 or "Fatal Python error" in err.decode("utf8", "replace"):
-                    reports.append({"evaluations": 1, "monitors": {"c01.python": {"observed": 1, "judged": 1, "unjudged": 0, "violations": 1}},
-                                    "violations": [{"monitor": "c01.python", "sig": "interpreter-died:%s" % p.returncode, "rule": last, "data": None,
-                                                    "expected": "an ordinary exception", "got": {"exit": p.returncode, "stderr": err.decode("utf8", "replace")[-600:]},
-                                                    "note": "the Python interpreter crashed during this call", "lane": "py-" + profile, "direct": False, "count": 1}]})
-                else:
-                    raise O.Inconclusive("python child failed (harness): rc=%s %s" % (p.returncode, err.decode("utf8", "replace")[-800:]))
+                return [json.load(open(ofile))]
+            # the interpreter died: the progress record names the in-flight call
+            prog = ofile + ".progress"
+            try:
+                last = json.load(open(prog))
+            except Exception:
+                last = {}
+            etext = err.decode("utf8", "replace")
+            died_by_signal = p.returncode is not None and p.returncode < 0
+            if died_by_signal or "Fatal Python error" in etext:
+                import signal as _sig
+                cpu = died_by_signal and -p.returncode in (_sig.SIGPROF, _sig.SIGVTALRM, _sig.SIGXCPU)
+                sig = ("no-result-within-cpu-budget:%s" % last.get("call")) if cpu else ("interpreter-died:%s" % p.returncode)
+                rep = {"evaluations": 1, "monitors": {"c01.python": {"observed": 1, "judged": 1, "unjudged": 0, "violations": 1}},
+                       "violations": [{"monitor": "c01.python", "sig": sig, "rule": last.get("rule"), "data": last.get("data"),
+                                       "expected": "a value or an ordinary exception" + (" within 20 s of CPU time" if cpu else ""),
+                                       "got": {"exit": p.returncode, "call": last.get("call"), "stderr": etext[-600:]},
+                                       "note": "the call into the extension did not return within its CPU budget" if cpu else "the Python interpreter crashed during this call",
+                                       "lane": "py-" + profile, "direct": False, "count": 1}]}
+                more = []
+                if attempt < 6 and isinstance(last.get("case"), int):
+                    more = run_child(k, last["case"], attempt + 1)
+                return [rep] + more
+            raise O.Inconclusive("python child failed (harness): rc=%s %s" % (p.returncode, etext[-800:]))
+
+        with ThreadPoolExecutor(max_workers=nproc) as ex:
+            for reps in ex.map(run_child, range(nproc)):
+                reports.extend(reps)
         for r in reports:
             if pid == "C01":
                 # C01 judges only "an ordinary exception instead of a crash": SystemError (a Rust panic
